@@ -116,7 +116,8 @@ func (tc *typechecker) obsoleteForRangeAssign(node ast.Node, leftExpr, rightExpr
 		right.setValue(left.Type)
 		tc.compilation.typeInfos[leftExpr] = left
 	default:
-		panic(internalError("unexpected"))
+		// for a[0] = range s: the emitter only supports identifiers.
+		panic(tc.errorf(leftExpr, "range assignment to %s is not supported: only identifiers can be assigned by range", leftExpr))
 	}
 
 	return ""
